@@ -79,6 +79,10 @@
 
 #define STREAM_ID				0xAABBCCDDEEFF0001
 #define DATA_LEN				1400
+#ifdef COVESA_OPEN1722_VERIF_DATA_LEN        /* verification hook: scaled-down NAL / receive buffer */
+#undef DATA_LEN
+#define DATA_LEN				COVESA_OPEN1722_VERIF_DATA_LEN
+#endif
 #define AVTP_H264_HEADER_LEN	(sizeof(Avtp_H264_t))
 #define AVTP_FULL_HEADER_LEN	(sizeof(Avtp_Cvf_t) + sizeof(Avtp_H264_t))
 #define MAX_PDU_SIZE			(AVTP_FULL_HEADER_LEN + DATA_LEN)
